@@ -58,11 +58,14 @@ func bitwiseEqual(a, b [][]float64) (bool, string) {
 // that are well defined; undefined pairs must be undefined on both sides (both not a number, or both the
 // substitute) when the whole matrix is well conditioned; ill-conditioned pairs are not compared
 func related(base, other [][]float64, scale float64, perm []int, st [][]refdist.PairStatus, clean bool) (ill int, err error) {
+	return relatedTol(base, other, scale, perm, st, clean, refdist.LibTol)
+}
+
+func relatedTol(base, other [][]float64, scale float64, perm []int, st [][]refdist.PairStatus, clean bool, tol refdist.Tol) (ill int, err error) {
 	n := len(base)
 	if len(other) != n {
 		return 0, fmt.Errorf("%d rows against %d", len(other), n)
 	}
-	tol := refdist.LibTol
 	for i := 0; i < n; i++ {
 		for j := 0; j < n; j++ {
 			pi, pj := i, j
@@ -133,6 +136,12 @@ type relCase struct {
 	Adjacent bool            `json:"adjacent"` // replicated columns next to each other, or k concatenated copies
 	ViaAPI   bool            `json:"via_api"`  // transform with SelectSites / Concat / ReverseComplement instead of building the rows
 	Threads  []int           `json:"threads"`  // thread count of each of the 7 calls
+	// Shared: every matrix of the case is computed with ONE model object, as cmd/computedist.go does for
+	// an input with several alignments and cmd/distboot.go for every replicate; Reverse: the original
+	// is computed again AFTER each transformed alignment and that matrix is the one compared
+	// (transformed -> original), otherwise original -> transformed
+	Shared  bool `json:"shared"`
+	Reverse bool `json:"reverse"`
 }
 
 func genRel(t *rapid.T) relCase {
@@ -147,7 +156,24 @@ func genRel(t *rapid.T) relCase {
 	for i := 0; i < 7; i++ {
 		c.Threads = append(c.Threads, rapid.SampledFrom(threadCounts).Draw(t, "threads"))
 	}
+	c.Shared = rapid.Bool().Draw(t, "shared-model")
+	c.Reverse = rapid.Bool().Draw(t, "transformed-first")
 	return c
+}
+
+// computer returns the function that computes a matrix: with a fresh model per call, or with one
+// model object for all calls
+func computer(opt refdist.Options, shared bool) func(rows []string, o refdist.Options, threads int) ([][]float64, error) {
+	if !shared {
+		return matrixOf
+	}
+	m, err := distrun.Model(opt, false)
+	return func(rows []string, o refdist.Options, threads int) ([][]float64, error) {
+		if err != nil {
+			return nil, err
+		}
+		return distrun.MatrixWith(gen.MustBuild(distrun.Ali(rows)), o, m, threads)
+	}
 }
 
 func matrixOf(rows []string, opt refdist.Options, threads int) ([][]float64, error) {
@@ -165,9 +191,17 @@ func rowsOf(al align.Alignment) []string {
 func checkRel(c relCase) (o pbt.Outcome, err error) {
 	l := len(c.Rows[0])
 	opt := c.Opt
-	base, e := matrixOf(c.Rows, opt, c.Threads[0])
+	compute := computer(opt, c.Shared)
+	base, e := compute(c.Rows, opt, c.Threads[0])
 	if e != nil {
 		return o, fmt.Errorf("DistMatrix fails: %v", e)
+	}
+	if c.Shared {
+		if c.Reverse {
+			o.Class("one-model-object: transformed then original")
+		} else {
+			o.Class("one-model-object: original then transformed")
+		}
 	}
 	st, clean := refdist.Statuses(c.Rows, opt)
 	internal := (opt.Model == refdist.Raw || opt.Model == refdist.PDist) && opt.GapMut == refdist.GapInternal
@@ -216,9 +250,19 @@ func checkRel(c relCase) (o pbt.Outcome, err error) {
 		return got, nil
 	}
 	relation := func(name string, rows []string, ropt refdist.Options, scale float64, perm []int, threads int) error {
-		m, e := matrixOf(rows, ropt, threads)
+		m, e := compute(rows, ropt, threads)
 		if e != nil {
 			return fmt.Errorf("%s: DistMatrix fails: %v", name, e)
+		}
+		if c.Shared && c.Reverse {
+			// the original again, now after the transformed alignment on the same model object
+			after, e := compute(c.Rows, opt, c.Threads[0])
+			if e != nil {
+				return fmt.Errorf("%s: DistMatrix fails on the original after the transformed alignment: %v", name, e)
+			}
+			if ok, why := bitwiseEqual(base, after); !ok {
+				return fmt.Errorf("%s: the same alignment, options and thread count on the same model object give another matrix after the transformed alignment was computed: %s", name, why)
+			}
 		}
 		ill, e := related(base, m, scale, perm, st, clean)
 		o.Ill += ill
@@ -313,6 +357,8 @@ type thrCase struct {
 	Rows []string        `json:"rows"`
 	Opt  refdist.Options `json:"opt"`
 	Tier int             `json:"tier"`
+	// Shared: one model object for all thread counts
+	Shared bool `json:"shared"`
 }
 
 func genThr(t *rapid.T) thrCase {
@@ -323,13 +369,18 @@ func genThr(t *rapid.T) thrCase {
 	}
 	c.Rows, c.Tier = refdist.GenRows(t, 3, maxRows, 40, -1)
 	c.Opt = refdist.GenOptions(t, len(c.Rows), len(c.Rows[0]), true, true)
+	c.Shared = rapid.Bool().Draw(t, "shared-model")
 	return c
 }
 
 func checkThr(c thrCase) (o pbt.Outcome, err error) {
 	var first [][]float64
+	compute := computer(c.Opt, c.Shared)
+	if c.Shared {
+		o.Class("one-model-object")
+	}
 	for k, th := range threadCounts {
-		m, e := matrixOf(c.Rows, c.Opt, th)
+		m, e := compute(c.Rows, c.Opt, th)
 		if e != nil {
 			return o, fmt.Errorf("DistMatrix with %d threads fails: %v", th, e)
 		}
@@ -342,7 +393,7 @@ func checkThr(c thrCase) (o pbt.Outcome, err error) {
 		}
 	}
 	// twice with the same thread count: scheduling alone
-	m, e := matrixOf(c.Rows, c.Opt, 8)
+	m, e := compute(c.Rows, c.Opt, 8)
 	if e != nil {
 		return o, fmt.Errorf("DistMatrix fails: %v", e)
 	}
@@ -596,6 +647,7 @@ func TestRace(t *testing.T) {
 		var c raceCase
 		c.Thr.Rows, c.Thr.Tier = refdist.GenRows(t, 3, 14, 20, -1)
 		c.Thr.Opt = refdist.GenOptions(t, len(c.Thr.Rows), len(c.Thr.Rows[0]), true, true)
+		c.Thr.Shared = rapid.Bool().Draw(t, "shared-model")
 		c.Fault = genFault(t)
 		return c
 	}, func(c raceCase) (o pbt.Outcome, err error) {
@@ -668,6 +720,117 @@ func TestCLI(t *testing.T) {
 		o.Class("model=%s", c.Opt.Model)
 		if len(c.Rows) > 12 {
 			o.Class("rows>12")
+		}
+		return o, nil
+	})
+}
+
+// ---- command line: the original and a transformed alignment in ONE phylip file ------------------------
+
+type cli2Case struct {
+	Rows     []string        `json:"rows"`
+	Opt      refdist.Options `json:"opt"`
+	Tier     int             `json:"tier"`
+	Relation string          `json:"relation"`
+	ColPerm  []int           `json:"colperm"`
+	RowPerm  []int           `json:"rowperm"`
+	K        int             `json:"k"`
+	First    bool            `json:"transformed_first"` // the transformed alignment comes first in the file
+	Threads  int             `json:"threads"`
+}
+
+func phylipText(names, rows []string) string {
+	s := fmt.Sprintf("%d %d\n", len(rows), len(rows[0]))
+	for i, r := range rows {
+		s += names[i] + "  " + r + "\n"
+	}
+	return s
+}
+
+func TestCLITwoAlignments(t *testing.T) {
+	if cli.Binary() == "" {
+		t.Skip("no goalign binary")
+	}
+	dir := cli.TempDir("c08cli2")
+	pbt.Run(t, func(t *rapid.T) cli2Case {
+		var c cli2Case
+		c.Rows, c.Tier = refdist.GenRows(t, 3, 10, 30, -1)
+		c.Opt = refdist.GenOptions(t, len(c.Rows), len(c.Rows[0]), false, false)
+		if !c.Opt.Gamma {
+			c.Opt.Alpha = 0
+		}
+		rels := []string{"column-permutation", "replication", "reverse-complement", "row-permutation"}
+		if (c.Opt.Model == refdist.Raw || c.Opt.Model == refdist.PDist) && c.Opt.GapMut == refdist.GapInternal {
+			rels = []string{"row-permutation"} // the internal-gap mode is exempt from the column relations
+		}
+		c.Relation = rapid.SampledFrom(rels).Draw(t, "relation")
+		c.ColPerm = gen.Perm(t, len(c.Rows[0]), "colperm")
+		c.RowPerm = gen.Perm(t, len(c.Rows), "rowperm")
+		c.K = rapid.IntRange(2, 4).Draw(t, "k")
+		c.First = rapid.Bool().Draw(t, "transformed-first")
+		c.Threads = rapid.SampledFrom(threadCounts).Draw(t, "threads")
+		return c
+	}, func(c cli2Case) (o pbt.Outcome, err error) {
+		n := len(c.Rows)
+		names := gen.SimpleNames(n)
+		trows, tnames := c.Rows, names
+		scale := 1.0
+		var perm []int
+		switch c.Relation {
+		case "column-permutation":
+			trows = refdist.SelectColumns(c.Rows, c.ColPerm)
+		case "replication":
+			trows = refdist.SelectColumns(c.Rows, refdist.Replicate(len(c.Rows[0]), c.K, true))
+			if c.Opt.Model == refdist.Raw {
+				scale = float64(c.K)
+			}
+		case "reverse-complement":
+			trows = refdist.RevComp(c.Rows)
+		case "row-permutation":
+			perm = c.RowPerm
+			trows, tnames = make([]string, n), make([]string, n)
+			for i, p := range perm {
+				trows[i], tnames[i] = c.Rows[p], names[p]
+			}
+		}
+		text := phylipText(names, c.Rows) + phylipText(tnames, trows)
+		if c.First {
+			text = phylipText(tnames, trows) + phylipText(names, c.Rows)
+		}
+		in := cli.TempFile(dir, ".phy", text)
+		defer os.Remove(in)
+		args := append(distrun.Args(c.Opt, in, c.Threads), "-p")
+		r := cli.Run("", args...)
+		if r.TimedOut {
+			return o, fmt.Errorf("goalign %v did not finish", args)
+		}
+		if r.Exit != 0 {
+			return o, fmt.Errorf("goalign %v: exit %d, stderr %q", args, r.Exit, r.Stderr)
+		}
+		gotNames, mats, perr := distrun.ParseMatrices(r.Stdout)
+		if perr != nil || len(mats) != 2 {
+			return o, fmt.Errorf("goalign %v: two alignments in the file but the output is not two matrices (%v):\n%s", args, perr, r.Stdout)
+		}
+		orig, trans, tn := mats[0], mats[1], gotNames[1]
+		if c.First {
+			orig, trans, tn = mats[1], mats[0], gotNames[0]
+		}
+		if !sameStrings(tn, tnames) {
+			return o, fmt.Errorf("goalign %v: the matrix of the transformed alignment has rows %v, want %v", args, tn, tnames)
+		}
+		st, clean := refdist.Statuses(c.Rows, c.Opt)
+		ill, e := relatedTol(orig, trans, scale, perm, st, clean, refdist.CLITol)
+		o.Ill += ill
+		if e != nil {
+			return o, fmt.Errorf("goalign %v (%s, transformed alignment first: %v): %v\n%s", args, c.Relation, c.First, e, r.Stdout)
+		}
+		o.NonTrivial = !sameStrings(trows, c.Rows) && hasFiniteNonZero(orig)
+		o.Class("relation:%s", c.Relation)
+		o.Class("model=%s", c.Opt.Model)
+		if c.First {
+			o.Class("transformed-first")
+		} else {
+			o.Class("original-first")
 		}
 		return o, nil
 	})
